@@ -5,7 +5,8 @@ Local Open Scope Z_scope.
 Inductive case :=
 | CInj (c : span_ctx)
 | CExt (tp ts : bytes)
-| CRt (c : span_ctx).
+| CRt (c : span_ctx)
+| CPur.      (* purity probe of the modelling assumption "these operations are pure" (harness/c09_purity.cc) *)
 
 Definition opt_bytes (t : tok) : option bytes :=
   match t with TB b => Some b | TT _ => Some [] | TZ _ => None end.
@@ -31,8 +32,28 @@ Definition parse_case (l : list tok) : option case :=
                     end
         | _ => None
         end
+      else if is_tag "PURITY" t then
+        match rest with
+        | [TZ _; TZ _; TZ _; TZ _] => Some CPur
+        | _ => None
+        end
       else None
   | [] => None
+  end.
+
+(* The model's operations are functions, so whatever several threads compute from shared values is what
+   one thread computes: the only observation the model predicts for a purity probe is PURE.  The probe's
+   other observations name the failed clause. *)
+Definition spec_purity_ok (obs : list tok) : list tok :=
+  match obs with
+  | [t] => if is_tag "PURE" t then [] else fail "obs:unparsable"
+  | t :: _ => if is_tag "RACE" t then fail "purity:data_race"
+              else if is_tag "DIFFERS" t then fail "purity:result_differs"
+              else if is_tag "HARNESSRACE" t then fail "harness:probe_race"
+              else if is_tag "HANG" t then fail "purity:hang"
+              else if is_tag "CRASH" t then fail "purity:crash"
+              else fail "obs:unparsable"
+  | [] => fail "obs:unparsable"
   end.
 
 Definition print_inj (o : option (bytes * option bytes)) : list tok :=
@@ -78,6 +99,7 @@ Definition run_model (l : list tok) : list tok :=
   | Some (CRt c) =>
       let car := inject_into [] c in
       observe_extract (carrier_get "traceparent" car) (carrier_get "tracestate" car)
+  | Some CPur => [tag "PURE"]
   | None => bad_case
   end.
 
@@ -99,6 +121,7 @@ Definition run_tag (l : list tok) : list tok :=
                            end
             end)]
   | Some (CRt c) => [tag (if ctx_valid c then "rt_valid" else "rt_invalid")]
+  | Some CPur => [tag "purity_probe"]
   | None => bad_case
   end.
 
@@ -107,5 +130,6 @@ Definition run_spec (l obs : list tok) : list tok :=
   | Some (CInj c) => match parse_inj obs with Some o => spec_inject_ok c o | None => fail "obs:unparsable" end
   | Some (CExt tp ts) => match parse_ext obs with Some (o, same) => spec_extract_ok tp ts o same | None => fail "obs:unparsable" end
   | Some (CRt c) => match parse_ext obs with Some (o, same) => spec_roundtrip_ok c o same | None => fail "obs:unparsable" end
+  | Some CPur => spec_purity_ok obs
   | None => bad_case
   end.
